@@ -2,17 +2,23 @@
 
 The harness probes on every run whether input_session() takes the phase lock before it bumps the timestamp
 ("fixed") or after ("asis", the order before 7a67ce5); the traces are validated against the model configuration
-with the same order, and PARTIAL is empty exactly when the order is the repaired one."""
+with the same order, and PARTIAL holds only the standing restriction (two-level engine) exactly when the order is the repaired one."""
 import json, os, sys, hashlib
 sys.path.insert(0, os.path.dirname(os.path.dirname(os.path.abspath(__file__))))
 import vlib
 
 PID = "C04"
-LEAN_MODULES = ["QbiceVerif.Props.C04"]
+LEAN_MODULES = ["QbiceVerif.Props.C04", "QbiceVerif.Props.NonVacuity.C04"]
 DRIVER = "drv_phase"
 HARNESS_BIN = "phase"
 HARNESS_FEATURES = ""
 PARTIAL = []            # filled in run(): depends on which order the code has (probed on every run)
+PARTIAL_ALWAYS = [
+    "the value clause of snapshot_consistent is proved over a TWO-LEVEL engine (derived keys read inputs only): the "
+    "LTS is about the phase protocol (lock, timestamp, batch), not about deep dependency graphs; that a deep graph "
+    "repaired under one snapshot yields the from-scratch values is C01's theorem, and the composition of the two is "
+    "not a theorem (the harness oracle judges flat programs here, deep ones in C01/C02).",
+]
 PARTIAL_ASIS = [
     "snapshot_consistent, snapshot_stable, session_atomic: proved for the repaired order of input_session() "
     "(Cfg.lockFirst = true: exclusive phase lock first, then new batch, bump, stage = /repo commit 7a67ce5). THE ORDER PROBE FOUND THE OLD ORDER IN THIS TREE (the fix was reverted?). "
@@ -150,7 +156,7 @@ def run(ctx, boost=1):
     res.distribution = dist
     res.extra = {"order_of_input_session_steps_in_repo": order,
                  "model_configuration_validated": "Cfg.lockFirst = " + ("true (repaired)" if order == "fixed" else "false (as is)")}
-    res.partial = [] if order == "fixed" else PARTIAL_ASIS
+    res.partial = PARTIAL_ALWAYS + ([] if order == "fixed" else PARTIAL_ASIS)
     if order not in ("asis", "fixed"):
         res.disagreements.append({"line": 0, "op": "order probe", "impl": str(order), "model": "asis|fixed (phase:w:bump / phase:w:acq hooks missing?)"})
     return res
